@@ -94,23 +94,55 @@ def routing(rep: Report):
     from checks.common import REPO
     tree = ast.parse(open(os.path.join(REPO, "peg_parser/subheader.py"), encoding="utf-8").read())
     fns = {n.name: n for c in ast.walk(tree) if isinstance(c, ast.ClassDef) and c.name == "Parser" for n in c.body if isinstance(n, ast.FunctionDef)}
-    for builder, expr in (("macro_call", "ast.Constant(value=param.string, **param.loc())"), ("handle_with_macro_stmt", "ast.Constant(value=b.string, **b.loc())")):
-        fn = fns.get(builder)
-        src = ast.unparse(fn) if fn else ""
-        oid = f"C07.verbatim.{builder}"
-        if expr in src:
-            rep.ok(oid, "structural", f"Parser.{builder} builds the string constant from the MACRO_PARAM token's text as is (`{expr}`)", "syntactic",
-                   function=f"peg_parser/subheader.py:Parser.{builder}")
-        else:
-            rep.fail(oid, "structural", f"Parser.{builder} builds the string constant from the MACRO_PARAM token's text as is", "syntactic",
-                     f"`{expr}` not found in the function", witness=src[:400])
-    fn = fns.get("proc_macro_arg")
-    src = ast.unparse(fn) if fn else ""
-    if "''.join((tok.string if isinstance(tok, TokenInfo) else tok for tok in a)).strip()" in src:
-        rep.ok("C07.verbatim.proc_macro_arg", "structural", "Parser.proc_macro_arg joins the raw token strings (WS tokens included) and strips the result once", "syntactic",
-               function="peg_parser/subheader.py:Parser.proc_macro_arg")
+    def verbatim_constant(call, name):
+        """`ast.Constant(value=<name>.string, **<name>.loc())`, whatever <name> is called"""
+        return (isinstance(call, ast.Call) and ast.unparse(call.func) == "ast.Constant"
+                and any(k.arg == "value" and ast.unparse(k.value) == f"{name}.string" for k in call.keywords)
+                and any(k.arg is None and ast.unparse(k.value) == f"{name}.loc()" for k in call.keywords))
+
+    def params(fn):
+        return [a.arg for a in fn.args.args[1:]]
+
+    # macro_call(a, b): one Constant per element of its second parameter, in order (a comprehension over it), built from .string / .loc()
+    fn = fns.get("macro_call")
+    ok = False
+    if fn is not None and len(params(fn)) >= 2:
+        for n in ast.walk(fn):
+            if isinstance(n, (ast.ListComp, ast.GeneratorExp)) and len(n.generators) == 1 and not n.generators[0].ifs \
+                    and isinstance(n.generators[0].iter, ast.Name) and n.generators[0].iter.id == params(fn)[1] \
+                    and isinstance(n.generators[0].target, ast.Name) and verbatim_constant(n.elt, n.generators[0].target.id):
+                ok = True
+    desc = "Parser.macro_call turns every MACRO_PARAM token of its list, in order, into Constant(value=<token>.string, **<token>.loc())"
+    if ok:
+        rep.ok("C07.verbatim.macro_call", "structural", desc, "syntactic", function="peg_parser/subheader.py:Parser.macro_call")
     else:
-        rep.fail("C07.verbatim.proc_macro_arg", "structural", "Parser.proc_macro_arg joins the raw token strings and strips the result once", "syntactic", src[:300], witness=src[:300])
+        rep.fail("C07.verbatim.macro_call", "structural", desc, "syntactic", "no such comprehension over the parameter list found",
+                 witness=ast.unparse(fn)[:400] if fn else None)
+    fn = fns.get("handle_with_macro_stmt")
+    ok = fn is not None and len(params(fn)) >= 2 and any(verbatim_constant(n, params(fn)[1]) for n in ast.walk(fn))
+    desc = "Parser.handle_with_macro_stmt builds the body constant as Constant(value=<MACRO_PARAM token>.string, **<token>.loc())"
+    if ok:
+        rep.ok("C07.verbatim.handle_with_macro_stmt", "structural", desc, "syntactic", function="peg_parser/subheader.py:Parser.handle_with_macro_stmt")
+    else:
+        rep.fail("C07.verbatim.handle_with_macro_stmt", "structural", desc, "syntactic", "no such Constant found", witness=ast.unparse(fn)[:400] if fn else None)
+    # proc_macro_arg(a): "".join(<t>.string if isinstance(<t>, TokenInfo) else <t> for <t> in a).strip() is what the Constant carries
+    fn = fns.get("proc_macro_arg")
+    ok = False
+    if fn is not None and params(fn):
+        for n in ast.walk(fn):
+            if isinstance(n, ast.Call) and isinstance(n.func, ast.Attribute) and n.func.attr == "strip" and not n.args \
+                    and isinstance(n.func.value, ast.Call) and ast.unparse(n.func.value.func) == "''.join" and len(n.func.value.args) == 1 \
+                    and isinstance(n.func.value.args[0], (ast.GeneratorExp, ast.ListComp)):
+                g = n.func.value.args[0]
+                if len(g.generators) == 1 and not g.generators[0].ifs and isinstance(g.generators[0].target, ast.Name) \
+                        and ast.unparse(g.generators[0].iter) == params(fn)[0]:
+                    t = g.generators[0].target.id
+                    ok = ast.unparse(g.elt) == f"{t}.string if isinstance({t}, TokenInfo) else {t}"
+    desc = "Parser.proc_macro_arg joins the raw token strings (WS tokens included, nothing dropped) and strips the result once"
+    if ok:
+        rep.ok("C07.verbatim.proc_macro_arg", "structural", desc, "syntactic", function="peg_parser/subheader.py:Parser.proc_macro_arg")
+    else:
+        rep.fail("C07.verbatim.proc_macro_arg", "structural", desc, "syntactic", "pattern not found", witness=ast.unparse(fn)[:300] if fn else None)
 
 
 def standin(rep: Report):
